@@ -183,12 +183,12 @@ func effective(rows []row) []row {
 }
 
 func emitTable(b *strings.Builder, name, doc string, rows []row) {
-	fmt.Fprintf(b, "/-- %s -/\ndef %s : List (String × String) := [", doc, name)
+	fmt.Fprintf(b, "/-- %s; a pattern is the list of its dot-separated parts -/\ndef %s : List (List String × String) := [", doc, name)
 	for i, r := range rows {
 		if i > 0 {
 			b.WriteString(",")
 		}
-		fmt.Fprintf(b, "\n  (%s, %s)", leanStr(r.key), leanStr(r.handler))
+		fmt.Fprintf(b, "\n  ([%s], %s)", joinLean(strings.Split(r.key, ".")), leanStr(r.handler))
 	}
 	b.WriteString("]\n\n")
 	fmt.Fprintf(logw, "table %s: %d rows\n", name, len(rows))
